@@ -304,7 +304,11 @@ def materialise_rows(c) -> list[str]:
 
 
 def run(ctx):
+    import time
+    t0 = time.time()
+    marks = {}
     core.proof_stage(ctx, THEOREM_FILE)
+    marks["proof_stage_s"] = round(time.time() - t0, 1)
     rng = ctx.rng("rows")
 
     # ---- shipped rule lines: which ones does the plain language cover? (decided by Coq) ----
@@ -359,7 +363,9 @@ def run(ctx):
 
     payload = [dict({k: v for k, v in c.items() if k not in ("rows", "rows_list", "src")}, rows=c["rows_list"])
                for c in cases]
+    marks["generate_s"] = round(time.time() - t0, 1)
     outs = core.run_impl_sharded("c07_runner.py", payload, wrap=lambda cs: {"op": "run", "cases": cs}, timeout=900)
+    marks["implementation_s"] = round(time.time() - t0, 1)
 
     # ---- Coq evaluates agree / holds ----
     used = sorted({c["rows"] for c in cases if isinstance(c["rows"], tuple)})
@@ -387,6 +393,8 @@ def run(ctx):
     }
     res = core.run_case_files(ID, TY, IMPORTS, preds, terms, per_file=40 if ctx.thorough else 30,
                               extra_defs=extra_defs, timeout=1500)
+    marks["coq_cases_s"] = round(time.time() - t0, 1)
+    ctx.notes.append(f"cumulative phase times: {marks}")
     if res["wf"]:
         i = res["wf"][0]
         raise core.CheckFailure(f"generator produced a case outside the guard wf_C07: {public(cases[i])}")
